@@ -9,8 +9,8 @@ trap 'git -C /repo checkout -- . 2>/dev/null' EXIT
 for d in seeded/*/; do
   name=$(basename "$d")
   checks=$(python3 -c "import json;m=json.load(open('$d/meta.json'));print(' '.join(sorted(set([m['property']]+list(m['detected_by'].keys())))))")
-  if ! git -C /repo apply --check "$d/patch.diff" 2>/dev/null; then echo "$name: PATCH DOES NOT APPLY"; continue; fi
-  git -C /repo apply "$d/patch.diff"
+  if ! git -C /repo apply --check "/verif/$d/patch.diff" 2>/dev/null; then echo "$name: PATCH DOES NOT APPLY"; continue; fi
+  git -C /repo apply "/verif/$d/patch.diff"
   for c in $checks; do
     out=$(./check "$c" --tier quick 2>&1); rc=$?
     cls=$(echo "$out" | grep -A1 "^VIOLATION" | grep -o "class=[a-z0-9-]*" | sort | uniq -c | sort -rn | head -3 | awk '{print $2"("$1")"}' | tr '\n' ' ')
